@@ -128,8 +128,13 @@ def cases(tier, seed):
     n_pairs = 16 if quick else 200
     for i in range(n_pairs):
         sp = {"engine": "gpclone", "kind": GPCLONE_KINDS[i % 2], "seed": base + 700001 + i * 29}
-        if i % 4 >= 2:
-            sp["early_fail"] = True
+        # workload patterns and documented non-default search options are enumerated over the pairs, not drawn
+        j = i // 2
+        sp["variant"] = j
+        pat = (["plain", "early_fail", "transfer", "transfer", "rc", "early_fail", "transfer", "plain"] if i % 2 == 0 else
+               ["plain", "early_complete", "transfer", "early_fail", "early_complete", "rc", "transfer", "early_complete"])[j % 8]
+        if pat != "plain":
+            sp[pat] = True
         out.append(sp)
     n_gp = 16 if quick else 200
     for kind in GP_DILL_KINDS:
@@ -137,6 +142,10 @@ def cases(tier, seed):
             sp = {"engine": "dill", "kind": kind, "seed": base + 500009 + i * 31 + GP_DILL_KINDS.index(kind)}
             if i % 4 == 3:
                 sp["early_fail"] = True
+            elif i % 4 == 2:
+                sp["transfer" if kind == "gp_fifo" else "early_complete"] = True
+            elif i % 8 == 1 and kind == "gp_mobster":
+                sp["transfer"] = True
             out.append(sp)
     n_mf = 14 if quick else 350
     for i in range(n_mf):
@@ -191,6 +200,13 @@ def floors(tier):
         f[f"rp:gpclone:{kind}"] = 100 * k
         f[f"rp_k0:gpclone:{kind}"] = 3 * k
     f["rp_paused:gpclone:gp_mf"] = 20 * k
+    kk = 1 if tier == "quick" else 8
+    for name, n in (("transfer_learning", 30), ("early_complete_before_first_rung", 20), ("early_fail", 15),
+                    ("allow_duplicates", 30), ("restrict_configurations", 10), ("opt_skip_period", 50),
+                    ("opt_skip_init_length", 50), ("no_fantasizing", 10)):
+        f[f"rp_with_option:{name}"] = n * kk
+    f["rp_below_num_init_random_after_first_model_based_suggestion:gpclone"] = 3 * kk
+    f["rp_transfer_active_task_below_num_init_random:gpclone"] = 10 * kk
     f["decided:suggestion_equal"] = 8000 * k
     f["decided:decision_equal"] = 20000 * k
     return f
@@ -447,6 +463,46 @@ def expand(spec):
             p["n_workers"] = rng.randint(1, 2)
         p["rc"] = kind in ("gp_fifo", "gp_mf", "gp_mobster") and rng.random() < 0.25
         p["rc_n"] = rng.randint(12, 30)
+        v = spec.get("variant")
+        if v is not None:
+            # enumerated (process pairs): every documented option is present in every run
+            p["gp"]["opt_skip_period"] = [1, 2, 3][v % 3]
+            p["gp"]["opt_skip_init_length"] = [150, 1, 2][(v // 2) % 3]
+            p["gp"].pop("allow_duplicates", None)
+            if v % 3 == 1:
+                p["gp"]["allow_duplicates"] = True
+            p["rc"] = bool(spec.get("rc"))
+        if spec.get("transfer"):
+            # documented transfer-HPO set-up: categorical task attribute, active task, observations of OTHER tasks
+            # already in the searcher's state; the active task starts with fewer than num_init_random configs
+            p["transfer_cfg"] = {"tasks": ["1", "0", "2"], "active": "1", "n_other": rng.randint(4, 7),
+                             "active_space": rng.random() < 0.5,
+                             "model": rng.choice(["matern52_product", "matern52_same"])}
+            p["gp"]["num_init_random"] = rng.randint(2, 4)
+            p["rc"] = False
+            p["points"] = rng.choice(["none", "default"])
+            # FiniteRange (and its ordinal relatives) 'cannot be used in active_config_space' (documented assertion)
+            p["space"] = {n_: (["uniform", 0.0, 1.0] if d_[0] in ("finrange", "ordinal", "logfinrange") else d_)
+                          for n_, d_ in p["space"].items()}
+        if spec.get("early_complete") and kind != "gp_fifo":
+            # trials that end before their first rung level: with searcher_data='rungs' they never leave an observation
+            # and on_trial_complete cleans up their pending evaluation, so the number of configs known to the searcher
+            # can drop below num_init_random again after the first model-based suggestion
+            p["grace_period"] = rng.randint(2, 3)
+            p["reduction_factor"] = rng.choice([2, 3])
+            p["rung_levels"] = None
+            p["rung_increment"] = None
+            p["max_t"] = rng.choice([8, 9, 12])
+            if kind != "gp_hypertune":
+                p["brackets"] = 1
+            p["gp"]["num_init_random"] = rng.randint(2, 3)
+            p["early"] = {str(t): rng.randint(1, p["grace_period"] - 1) for t in range(2, 40) if rng.random() < 0.6}
+            p["n_workers"] = rng.randint(2, 3)
+            p["fail_rate"] = 0.0
+            p["max_trials"] = rng.randint(7, 10)
+            p["max_events"] = rng.randint(26, 40)
+            p["points"] = rng.choice(["none", "default"])
+            p["policy"] = rng.choice(["eager", "round_robin", "uniform"])
     for k_, v_ in spec.items():
         if k_ not in ("seed", "engine", "kind") and not k_.startswith("_"):
             p[k_] = v_
@@ -518,6 +574,16 @@ def build(p, seed):
             so["skip_local_optimization"] = True
             so["initial_scoring"] = "acq_func"
         searcher = "hypertune" if kind == "gp_hypertune" else "bayesopt"
+        tr = p.get("transfer_cfg")
+        if tr:
+            from syne_tune.config_space import choice as _choice
+
+            active_space = dict(space)
+            space = dict(space, task_id=_choice(list(tr["tasks"])))
+            so.update(transfer_learning_task_attr="task_id", transfer_learning_active_task=tr["active"],
+                      transfer_learning_model=tr["model"])
+            if tr["active_space"]:
+                so["transfer_learning_active_config_space"] = active_space
 
     def common(**kw):
         d = dict(searcher=searcher, metric="loss", mode=mode, random_seed=seed)
@@ -619,7 +685,33 @@ def build(p, seed):
             return {"loss": curves(trial_id, level), "cost": c2(trial_id, level)}
     else:
         raise ValueError(kind)
+    if p.get("transfer_cfg"):
+        _feed_other_tasks(sched, p, seed)
     return sched, value_fn, extra_fn
+
+
+def _feed_other_tasks(sched, p, seed):
+    """Observations of the non-active tasks enter the searcher's state through its public API
+    (``on_trial_result(..., update=True)``), before the history starts."""
+    import numpy as np
+
+    tr = p["transfer_cfg"]
+    searcher = sched.searcher
+    multi_fidelity = p.get("type") is not None
+    if multi_fidelity:
+        searcher.configure_scheduler(sched)  # needs the resource attribute; the scheduler repeats this at its first suggest
+    desc = p["space"]
+    space = gen.build_space(desc)
+    rs = np.random.RandomState((seed + 13) % (2**31))
+    others = [t for t in tr["tasks"] if t != tr["active"]]
+    level = int(sched.rung_levels[0]) if multi_fidelity else None
+    for i in range(tr["n_other"]):
+        cfg = {k: jsonable(space[k].sample(random_state=rs)) for k, v in desc.items() if v[0] != "const"}
+        cfg["task_id"] = others[i % len(others)]
+        res = {"loss": float(rs.uniform(0.0, 1.0))}
+        if multi_fidelity:
+            res["epoch"] = level
+        searcher.on_trial_result(f"other{i}", cfg, result=res, update=True)
 
 
 def vtuner_params(p, seed, order=None):
@@ -633,7 +725,7 @@ def vtuner_params(p, seed, order=None):
         "n_workers": p["n_workers"], "max_t": p["max_t"], "metric": "loss", "resource_attr": "epoch",
         "policy": p["policy"], "seed": seed + 2, "max_trials": p["max_trials"], "max_events": p["max_events"],
         "max_resource_attr": "epochs" if p["use_mra"] else None, "checkpointing": p["checkpointing"],
-        "fail": fail, "order": order, "pbt_restart_levels": True,
+        "fail": fail, "order": order, "pbt_restart_levels": True, "early": dict(p.get("early") or {}),
     }
 
 
@@ -740,6 +832,20 @@ class OrderVTuner(VTuner):
     def __init__(self, *a, **k):
         super().__init__(*a, **k)
         self.actions = []
+        self.early = {int(t): int(n) for t, n in (self.p.get("early") or {}).items()}
+
+    def do_advance(self, tid):
+        """Plan ``early``: {trial: n}: the training script of that trial ends after n reports of its first run
+        (legal: a script may finish before max_t) -> on_trial_complete with its last result."""
+        vt = self.trials[tid]
+        n = self.early.get(tid)
+        if n is not None and vt.run_no == 0 and vt.last_result is not None and vt.reports_in_run >= n:
+            vt.status = "completed"
+            self.running.remove(tid)
+            self.events.append(("complete", tid, vt.run_no, vt.last_level))
+            self.port.on_trial_complete(vt.trial, dict(vt.last_result))
+            return
+        return super().do_advance(tid)
 
     def choose(self):
         a = super().choose()
@@ -1017,6 +1123,9 @@ def _judge_restore_point(o, p, fac, kind, log1, s, restore_fn, np, replay_fn=Non
     o.count("decided:suggestion_equal", n_sugg)
     o.count("decided:decision_equal", n_dec)
     o.count(f"rp:{fac}")
+    if gp:
+        for name in _gp_options(p):
+            o.count(f"rp_with_option_dill:{name}")
     if k == 0:
         o.count(f"rp_k0:{fac}")
     if s["paused"]:
@@ -1366,6 +1475,44 @@ def _param_roundtrip_in_place(sched, info):
         s_.set_params(s_.model_parameters())
 
 
+def _gp_options(p):
+    """Documented non-default search options / workload patterns present in a GP case (for rp_with_option counters)."""
+    g = p.get("gp") or {}
+    out = []
+    if p.get("transfer_cfg"):
+        out.append("transfer_learning")
+    if g.get("allow_duplicates"):
+        out.append("allow_duplicates")
+    if p.get("rc"):
+        out.append("restrict_configurations")
+    if g.get("opt_skip_period", 1) > 1:
+        out.append("opt_skip_period")
+    if g.get("opt_skip_init_length", 150) < 150:
+        out.append("opt_skip_init_length")
+    if g.get("no_fantasizing"):
+        out.append("no_fantasizing")
+    if p.get("early"):
+        out.append("early_complete_before_first_rung")
+    if p.get("early_fail"):
+        out.append("early_fail")
+    if g.get("model") == "gp_independent":
+        out.append("model_gp_independent")
+    return out
+
+
+def _phase_probe(searcher):
+    """Read-only (reach counters only): how many configs of the active task / of all tasks the searcher knows
+    (observed, pending, failed), and whether it has observations."""
+    try:
+        st = searcher.state_transformer.state
+        ids = {e.trial_id for e in st.trials_evaluations} | {e.trial_id for e in st.pending_evaluations} | set(st.failed_trials)
+        active = {t for t in ids if not str(t).startswith("other")}
+        has_obs = any(not str(e.trial_id).startswith("other") for e in st.trials_evaluations)
+        return len(active), len(ids), has_obs
+    except Exception:  # noqa: BLE001
+        return None
+
+
 def _run_to_k_then(p, seed, order, k, action):
     import numpy as np
 
@@ -1376,11 +1523,19 @@ def _run_to_k_then(p, seed, order, k, action):
     step = 0
     info = {"k": k}
     max_events = vt.p["max_events"]
+    nir = (p.get("gp") or {}).get("num_init_random", 3)
+    seen_model_based = False
     while vt.n_events < max_events:
+        pr = _phase_probe(sched.searcher) if step <= k else None
+        if pr is not None and pr[0] >= nir and pr[2]:
+            seen_model_based = True  # a get_config in this state is model based
         if step == k:
             info["idx"] = len(port.log)
             info["paused"] = sum(1 for t in vt.trials.values() if t.status == "paused")
             info["running"] = len(vt.running)
+            if pr is not None:
+                info["below_nir_after_model_based"] = bool(seen_model_based and pr[0] < nir)
+                info["transfer_active_below_nir"] = bool(p.get("transfer_cfg") and pr[0] < nir <= pr[1])
             try:
                 action(sched, info)
             except Exception as e:  # noqa: BLE001
@@ -1525,6 +1680,12 @@ def run_gpclone(spec, o):
         o.count(f"rp:{fac}")
         o.count(f"restored_params:{pt.get('params')}")
         o.count(f"gp_model_rng_after_restore:{pt.get('gp_rng')}")
+        for name in _gp_options(p):
+            o.count(f"rp_with_option:{name}")
+        if pt.get("below_nir_after_model_based"):
+            o.count("rp_below_num_init_random_after_first_model_based_suggestion:gpclone")
+        if pt.get("transfer_active_below_nir"):
+            o.count("rp_transfer_active_task_below_num_init_random:gpclone")
         if k == 0:
             o.count(f"rp_k0:{fac}")
         if pt["paused"]:
